@@ -20,10 +20,14 @@ from pathlib import Path
 from .. import common as C
 from ..common import Corr, Violation, cbool, clist, cnat, copt, cz
 
-TRANSLATORS = ['run_skeleton']
+TRANSLATORS = ['run_skeleton', 'proc_helpers']
 
 TRUSTED_BASE = [
     'translate/run_skeleton.py (ast pattern matcher, fail-closed) and the interpreter of the skeleton in Proc/Model.v',
+    'translate/proc_helpers.py (genuine ast -> Proc/HelperSyntax.v translation of multiprocessing_logging.py and of run.py: '
+    'MultiprocessingLogging, _listen, _initializer, RunningProcess.*, _call_all, _call, run_in_process, _run; fail-closed) and the '
+    'interpreter Proc/HelperInterp.v (big-step; the listener task and the `_run` task are run when they are awaited; what the '
+    'executor, the queue, logging, pickle, os.kill and Process.terminate/kill do is its environment)',
     'harness/proc_runner.py + harness/proc_workers.py (scenario runner; reads process._popen.returncode without modifying anything)',
     'modelled, not verified (oracle of the model, validated by the matrix): concurrent.futures.ProcessPoolExecutor '
     '(the future yields the value / re-raises the worker exception / raises BrokenProcessPool when the process died; '
